@@ -146,8 +146,12 @@ inductive WAct
   | exitRemove | exitNotify | storeNone
   deriving DecidableEq, Repr, Inhabited
 
+/-- caller actions.  `exp` on the three loads of the active slot: the loaded path has outlived its expiry at the
+caller's `now` – `path()` / `cached_path()` then treat it as absent (`path_expired_at`); whether that is the
+case is a parameter of the action (time is not modelled). -/
 inductive TAct
-  | peek | contains | ensure | loadActive | lockCheck | awake | reload | readErr
+  | peek (exp : Bool) | contains | ensure | loadActive (exp : Bool) | lockCheck | awake | reload (exp : Bool)
+  | readErr
   deriving DecidableEq, Repr, Inhabited
 
 inductive MAct
@@ -298,14 +302,19 @@ def stepT (s : State) (j : Nat) (a : TAct) : Option State :=
   if j < s.nT then
     let t := s.t j
     match t.pc, a with
-    | .peek, .peek =>
+    | .peek, .peek exp =>
       let next : TPc := if t.kind = .cached then .contains else .ensure
       match s.map t.key with
       | some i =>
         let x := s.w i
         let s1 := s.setW i { x with used := true }
         match x.sh.active with
-        | some p => some (s1.setT j (t.finish (.path p)))
+        | some p =>
+          if exp then
+            -- expired: `cached_path` returns `None` (without `fast_ensure`), `path` goes on to `ensure`
+            if t.kind = .cached then some (s1.setT j (t.finish .nothing))
+            else some (s1.setT j { t with pc := .ensure })
+          else some (s1.setT j (t.finish (.path p)))
         | none => some (s1.setT j { t with pc := next })
       | none => some (s.setT j { t with pc := next })
     | .contains, .contains =>
@@ -316,13 +325,16 @@ def stepT (s : State) (j : Nat) (a : TAct) : Option State :=
       | some i => some (s.setT j (afterEnsure t i))
       | none =>
         some ((s.insert t.key).setT j (afterEnsure t s.nW))
-    | .loadActive, .loadActive =>
+    | .loadActive, .loadActive exp =>
       match t.h with
       | some i =>
         let x := s.w i
         let s1 := s.setW i { x with used := true }
         match x.sh.active with
-        | some p => some (s1.setT j (t.finish (.path p)))
+        | some p =>
+          -- `active_path()` returns at once; `path()` (not the bare handle) drops an expired path and reads the error
+          if exp && t.kind == .path then some (s1.setT j { t with pc := .readErr })
+          else some (s1.setT j (t.finish (.path p)))
         | none => some (s1.setT j { t with pc := .lockCheck })
       | none => none
     | .lockCheck, .lockCheck =>
@@ -336,11 +348,13 @@ def stepT (s : State) (j : Nat) (a : TAct) : Option State :=
       match t.h with
       | some i => if (s.w i).sh.gen ≠ g then some (s.setT j { t with pc := .reload }) else none
       | none => none
-    | .reload, .reload =>
+    | .reload, .reload exp =>
       match t.h with
       | some i =>
         match (s.w i).sh.active with
-        | some p => some (s.setT j (t.finish (.path p)))
+        | some p =>
+          if exp && t.kind == .path then some (s.setT j { t with pc := .readErr })
+          else some (s.setT j (t.finish (.path p)))
         | none => some (s.setT j { t with pc := .readErr })
       | none => none
     | .readErr, .readErr =>
@@ -385,13 +399,13 @@ def run (s : State) (acts : List Action) : State := acts.foldl step s
 /-- the deterministic next action of a waiter (its program is sequential) -/
 def Waiter.nextAct (t : Waiter) : Option TAct :=
   match t.pc with
-  | .peek => some .peek
+  | .peek => some (.peek false)
   | .contains => some .contains
   | .ensure => some .ensure
-  | .loadActive => some .loadActive
+  | .loadActive => some (.loadActive false)
   | .lockCheck => some .lockCheck
   | .waiting _ => some .awake
-  | .reload => some .reload
+  | .reload => some (.reload false)
   | .readErr => some .readErr
   | .done => none
 
